@@ -451,31 +451,61 @@ theorem reset_for_rerun_products_not_built (s s' : KState) (k : Key) (hk : k.kin
 `Workflow.to_be_deleted` is gone. -/
 def crash (s : KState) : KState := { s with toBeDeleted := [] }
 
-/-- The full statement one would want: whatever `delete_detached` has queued for removal is still
-known to the restarted director, either as a node of the graph or in the queue. -/
-def DeletionQueueSurvivesCrash : Prop :=
-  ∀ s s' : KState, s.deleteDetachedBase = .ok s' → ∀ p ∈ s'.toBeDeleted.map (·.1),
-    (crash s').has (fileKey p) = true ∨ p ∈ (crash s').toBeDeleted.map (·.1)
+theorem crash_queueDelete (s : KState) (p : String) (h : Option Nat) : crash (s.queueDelete p h) = crash s := rfl
 
-/-- The state right before the cleanup of a build whose plan no longer declares `out/old.txt`:
-the file node is detached, BUILT, with a recorded hash, and nothing refers to it. -/
-def orphanWitness : KState :=
-  { nodes := [{ key := rootKey, creator := some rootKey },
-              { key := fileKey "out/old.txt", creator := none, detached := true, fstate := .built, fhash := some 7 }] }
+theorem crash_markDir (s : KState) (d : String) : crash (s.markDirToBeDeleted d) = crash s := by
+  unfold KState.markDirToBeDeleted
+  split <;> rfl
 
-/-- It is false: the witness's node is deleted by `delete_detached` (committed), its path is only
-in the queue, and after a kill before `remove_deletable_files` nothing remembers the file. -/
-theorem crash_leaves_orphan_files_negation : ¬ DeletionQueueSurvivesCrash := by
+/-- `File.before_delete` / `Step.before_delete` (called by `delete_detached` right before the row
+is deleted, in the same transaction) leave no persistent trace: what they record is in the
+memory-only queue, so a kill after that transaction's commit and before
+`remove_deletable_files` is indistinguishable from never having recorded anything. -/
+theorem before_delete_leaves_no_persistent_trace (s s1 : KState) (n : Node) (h : s.beforeDelete n = .ok s1) :
+    crash s1 = crash s := by
+  unfold KState.beforeDelete at h
+  cases hk : n.key.kind with
+  | root => simp [hk] at h
+  | st => simp only [hk, pure, Except.pure, Except.ok.injEq] at h; subst h; rfl
+  | step =>
+    simp only [hk, pure, Except.pure, Except.ok.injEq] at h
+    subst h
+    exact crash_markDir _ _
+  | file =>
+    simp only [hk, pure, Except.pure, Except.ok.injEq] at h
+    subst h
+    rw [crash_markDir]
+    cases n.fstate <;> try rfl
+    all_goals (cases n.fhash <;> rfl)
+
+/-- The full statement one would want: whatever `before_delete` records about a file whose row
+is being deleted is still known after a kill. -/
+def DeletionRecordSurvivesCrash : Prop :=
+  ∀ (s s1 : KState) (n : Node), s.beforeDelete n = .ok s1 →
+    ∀ p ∈ s1.toBeDeleted.map (·.1), p ∈ (crash s1).toBeDeleted.map (·.1)
+
+/-- A detached BUILT output with a recorded hash whose plan no longer declares it. -/
+def orphanRow : Node :=
+  { key := fileKey "out/old.txt", creator := none, detached := true, fstate := .built, fhash := some 7 }
+
+/-- It is false (finding F6): `before_delete` of the orphaned output queues its path (and its
+directory), the row is deleted and committed, and a kill before `remove_deletable_files` forgets
+the queue: nothing in the restarted director knows the file any more. -/
+theorem crash_leaves_orphan_files_negation : ¬ DeletionRecordSurvivesCrash := by
   intro hall
-  have hrun : ∃ s', orphanWitness.deleteDetachedBase = .ok s' ∧
-      s'.toBeDeleted.map (·.1) = ["out/old.txt", "out/"] ∧ s'.has (fileKey "out/old.txt") = false :=
-    ⟨_, rfl, by decide, by decide⟩
-  obtain ⟨s', hs', hq, hgone⟩ := hrun
-  have := hall orphanWitness s' hs' "out/old.txt" (by rw [hq]; simp)
-  rcases this with h1 | h1
-  · have : (crash s').has (fileKey "out/old.txt") = s'.has (fileKey "out/old.txt") := rfl
-    rw [this, hgone] at h1; cases h1
-  · simp [crash] at h1
+  have hrun : ∃ s1, ({} : KState).beforeDelete orphanRow = .ok s1 ∧ s1.toBeDeleted ≠ [] := by
+    refine ⟨_, rfl, ?_⟩
+    show (KState.markDirToBeDeleted _ _).toBeDeleted ≠ []
+    unfold KState.markDirToBeDeleted
+    split
+    · simp [KState.queueDelete, orphanRow]
+    · simp [KState.queueDelete]
+  obtain ⟨s1, hs1, hne⟩ := hrun
+  cases hq : s1.toBeDeleted with
+  | nil => exact hne hq
+  | cons e es =>
+    have := hall {} s1 orphanRow hs1 e.1 (by rw [hq]; simp)
+    simp [crash] at this
 
 /-! Non-vacuity: a killed build with a RUNNING step whose output is still BUILT in the database
 (the reset makes the step PENDING and the output OUTDATED). -/
